@@ -117,7 +117,10 @@ def has_private(v):
 
 
 def deep_eq(a, b):
-    """Python == that also works for numpy arrays nested in containers"""
+    """Python == that also works for numpy arrays nested in containers (like Python's container
+    comparison it takes one and the same object to be equal to itself: a shared NaN)"""
+    if a is b:
+        return True
     try:
         import numpy as np
     except Exception:  # pragma: no cover
@@ -614,9 +617,51 @@ def gen_numpy_pairs(ctx, n):
     return out
 
 
+def gen_nan_copies(ctx, n):
+    """values with NaN leaves (float('nan'), math.nan, Decimal('NaN')) at list / tuple / dict-value positions
+    against their deepcopy / shallow copy (the NaN objects are then shared by identity: a structural copy,
+    must give an empty diff) and against a rebuilt copy with distinct NaN objects (not equal for ==)"""
+    import decimal
+    import math
+    rng = ctx.rng
+
+    def val(depth):
+        r = rng.random()
+        if depth == 0 or r < 0.3:
+            return rng.choice([float("nan"), math.nan, decimal.Decimal("NaN"), 1, 2.5, "a", None])
+        m = rng.randint(1, 3)
+        if r < 0.55:
+            return [val(depth - 1) for _ in range(m)]
+        if r < 0.75:
+            return tuple(val(depth - 1) for _ in range(m))
+        return {k: val(depth - 1) for k in rng.sample(["a", "b", "c", 1, None], m)}
+
+    def recreate(v):
+        if isinstance(v, float) and v != v:
+            return float("nan")
+        if isinstance(v, decimal.Decimal):
+            return decimal.Decimal("NaN")
+        if isinstance(v, dict):
+            return {k: recreate(x) for k, x in v.items()}
+        if isinstance(v, (list, tuple)):
+            return type(v)(recreate(x) for x in v)
+        return v
+
+    n0 = float("nan")
+    out = [([n0], [n0], "nan:copy", True), ({"a": (1, n0)}, {"a": (1, n0)}, "nan:copy", True)]
+    for _ in range(n):
+        t = val(3)
+        if not isinstance(t, (list, tuple, dict)):
+            t = [t, 0]
+        out.append((t, copy.deepcopy(t), "nan:deepcopy", True))
+        out.append((t, copy.copy(t), "nan:shallow_copy", True))
+        out.append((t, recreate(t), "nan:recreated", False))
+    return out
+
+
 def gen_exotic(ctx, n):
-    """(t1, t2, kind, is_copy) with datetimes / numeric arrays; is_copy = a structural copy by construction"""
-    return gen_moment_pairs(ctx, n) + gen_numpy_pairs(ctx, n)
+    """(t1, t2, kind, is_copy) with datetimes / numeric arrays / NaN; is_copy = a structural copy by construction"""
+    return gen_moment_pairs(ctx, n) + gen_numpy_pairs(ctx, n) + gen_nan_copies(ctx, n // 2)
 
 
 # --- known defects of the unchanged tree in this domain: counterfactual matchers -------------
